@@ -9,8 +9,11 @@ cmd:
   {"t":"subclass","p":n,"via":"named"|"using_name"|"using_optional"|"class_stmt"|"validated_by"}
   {"t":"mi","bases":[n…],"mro":[n…]}            class X(*bases); mro = C3 tail, restricted to case classes
   {"t":"using_props","p":n,"init":[[k,v]…],"wrap":bool}   p.using(properties=dict | Properties(dict))
-  {"t":"using_shared","p":n,"owner":n}          p.using(properties=<the Properties object owned by owner>)
-  {"t":"with_props","p":n,"pairs":[[k,v]…],"split":m}      first m pairs positional, the rest keywords
+  {"t":"using_shared","p":n,"owner":n,"init":[[k,v]…]}   p.using(properties=P), P the Properties object held by class
+                                                 owner; init = P.initial_set as P was constructed (the caller knows P)
+  {"t":"with_props","p":n,"pairs":[[k,v]…],"split":m,"form":"list"|"mapping"|"iter"|"none"}
+                                                 first m pairs as THE positional argument (a list of pairs, a
+                                                 mapping, an iterator; "none": folded into the keywords), rest keywords
   {"t":"new","c":n}  {"t":"new_with","c":n,"m":[[k,v]…]}  {"t":"assign","i":n,"m":[[k,v]…]}
 observation = {"start": [[view, items]…], "steps": [{"r": result, "d": [[view, items]…]}…]}
 where "d" lists every view whose list(items()) differs from the previous step (new views always).
@@ -161,7 +164,19 @@ class Real:
             kw = {}
             for k, v in pairs[m:]:
                 kw[k] = v
-            self.classes.append(self.classes[cmd["p"]].with_properties(*pairs[:m], **kw))
+            # the documented call: at most ONE positional argument — an iterable of pairs or a mapping — plus
+            # keywords (fix 6f9ffeb); "none": no positional argument at all
+            form = cmd.get("form", "list")
+            parent = self.classes[cmd["p"]]
+            if form == "none" or m == 0:
+                new = parent.with_properties(**kw) if m == 0 else parent.with_properties(**dict(pairs[:m], **kw))
+            elif form == "mapping":
+                new = parent.with_properties(dict(pairs[:m]), **kw)
+            elif form == "iter":
+                new = parent.with_properties(iter(pairs[:m]), **kw)
+            else:
+                new = parent.with_properties(pairs[:m], **kw)
+            self.classes.append(new)
             return None
         if t == "new":
             self.insts.append(self.classes[cmd["c"]]())
@@ -278,7 +293,6 @@ class Ref:
     `defects` (empty for the oracle proper) switches on the recorded open findings, giving the
     "reference corrected for the known defect" that failures are classified against:
       "a"  instance clear() forgets the instance's own layer before tombstoning what the class shows
-      "b"  using(properties=P) with a Properties object shares P's layer instead of copying it
       "c"  a class whose MRO mixes Properties objects skips the layers held under another object"""
 
     def __init__(self, case, defects=()):
@@ -368,11 +382,10 @@ class Ref:
         elif t == "using_props":
             self.add_class(self.classes[cmd["p"]]["mro"], True, dict(_pairs(cmd["init"])))
         elif t == "using_shared":
-            owner = self.classes[cmd["owner"]]
-            if "b" in self.defects:
-                self.add_class(self.classes[cmd["p"]]["mro"], True, owner["layer"], desc=owner["desc"])
-            else:
-                self.add_class(self.classes[cmd["p"]]["mro"], True, dict(owner["layer"]))
+            # a class that is handed a Properties object starts from the mapping that object was built with
+            # (fix 936c1b4: the object's mapping is copied per class; former KF-C17-b)
+            self.add_class(self.classes[cmd["p"]]["mro"], True, dict(_pairs(cmd["init"])),
+                           desc=self.classes[cmd["owner"]]["desc"])
         elif t == "with_props":
             self.add_class(self.classes[cmd["p"]]["mro"], False, dict(_pairs(cmd["pairs"])))
         elif t == "new":
@@ -387,7 +400,7 @@ class Ref:
         return None
 
 
-KNOWN_DEFECTS = ("a", "b", "c")
+KNOWN_DEFECTS = ("a", "c")      # "b" (one Properties object shared by several classes) was fixed in /repo 936c1b4
 
 
 def _same_mapping(exp, got):
@@ -569,6 +582,12 @@ def check_case(case, max_unknown=1):
         exp = ref.do(cmd)
         alt = corr.do(cmd)
         got = real.do(cmd)
+        if cmd["t"] != "op" and got[0] == "err":
+            # a derivation / instantiation the documentation allows was refused: the rest of the history
+            # cannot be run
+            fails.append({"clause": "constructor-accepts-documented-call", "step": step, "view": None, "keys": [],
+                          "expected": "a new class / instance", "observed": got[1]})
+            return fails
         if not _result_matches(exp, got):
             known = _result_matches(alt, got)
             if not known:
@@ -650,16 +669,18 @@ def _rand_pairs(rng, nkeys, lo=0, hi=3):
 class _Shape:
     """what the generator knows about the hierarchy built so far"""
 
-    def __init__(self, root):
+    def __init__(self, root, init=()):
         self.mro = [[0]]
         self.fresh = [True]
         self.insts = []          # class id, or None when detached
         self.has_desc = [root == "using"]   # class has a Properties object of its own in __dict__
+        self.init = [[list(p) for p in init]]   # the mapping that Properties object was constructed with
 
-    def add(self, tail, fresh):
+    def add(self, tail, fresh, init=None):
         self.mro.append([len(self.mro)] + list(tail))
         self.fresh.append(fresh)
         self.has_desc.append(fresh)
+        self.init.append([list(p) for p in (init or [])])
 
 
 def _rand_op(rng, view, nkeys, allow_root_write):
@@ -685,7 +706,7 @@ def gen_case(rng, tier, max_cmds=40, shared=0.0, mi=0.0):
     root = rng.choice(["using", "using", "named"])
     case = {"rtype": rng.choice(RTYPES), "root": root,
             "init": _rand_pairs(rng, nkeys, 0, 3) if root == "using" else [], "cmds": []}
-    sh = _Shape(root)
+    sh = _Shape(root, case["init"])
     cmds = case["cmds"]
     # a hierarchy of depth >= 3 with siblings, >= 2 instances per (some) class
     depth = rng.randint(3, 5)
@@ -722,8 +743,9 @@ def gen_case(rng, tier, max_cmds=40, shared=0.0, mi=0.0):
             c = rng.randrange(len(sh.mro))
             if rng.random() < 0.3:
                 if case["rtype"] == "DateYYYYMMDD":
-                    cmds.append({"t": "new_with_compound", "c": c, "m": _rand_pairs(rng, nkeys, 0, 3)})
-                    sh.add(sh.mro[c], True)
+                    m = _rand_pairs(rng, nkeys, 0, 3)
+                    cmds.append({"t": "new_with_compound", "c": c, "m": m})
+                    sh.add(sh.mro[c], True, m)
                     c = len(sh.mro) - 1
                 else:
                     cmds.append({"t": "new_with", "c": c, "m": _rand_pairs(rng, nkeys, 0, 3)})
@@ -753,13 +775,16 @@ def _struct_cmd(rng, sh, p, nkeys, shared):
     if r < 0.70:
         sh.add(sh.mro[p], False)
         pairs = _rand_pairs(rng, nkeys, 0, 3)
-        return {"t": "with_props", "p": p, "pairs": pairs, "split": rng.randint(0, len(pairs))}
+        return {"t": "with_props", "p": p, "pairs": pairs, "split": rng.randint(0, len(pairs)),
+                "form": rng.choice(["list", "list", "mapping", "iter", "none"])}
     owners = [i for i, f in enumerate(sh.has_desc) if f]
     if rng.random() < shared and owners:
-        sh.add(sh.mro[p], True)
-        return {"t": "using_shared", "p": p, "owner": rng.choice(owners)}
-    sh.add(sh.mro[p], True)
-    return {"t": "using_props", "p": p, "init": _rand_pairs(rng, nkeys, 0, 3), "wrap": rng.random() < 0.3}
+        owner = rng.choice(owners)
+        sh.add(sh.mro[p], True, sh.init[owner])
+        return {"t": "using_shared", "p": p, "owner": owner, "init": [list(x) for x in sh.init[owner]]}
+    init = _rand_pairs(rng, nkeys, 0, 3)
+    sh.add(sh.mro[p], True, init)
+    return {"t": "using_props", "p": p, "init": init, "wrap": rng.random() < 0.3}
 
 
 def _mi_cmd(rng, sh):
@@ -805,7 +830,8 @@ class C17(Property):
         "sees_ancestor", "write_visible_below", "write_visible_below_inst",
         "detached", "detached_history",
         "WF_step", "NoShared_step", "inv_run",
-        "C17_full_fails", "C17_full_fails_shared", "C17_full_fails_mi", "read_is_overlay_fails_mi",
+        "C17_full_fails", "shared_object_shares_nothing", "histGuard_accepts_shared", "C17_full_fails_mi",
+        "read_is_overlay_fails_mi",
         "refine_step", "Inv_step", "refine_run", "read_is_overlay_all",
         "c17_histories_from", "c17_histories_partial", "c17_results_partial",
         "histGuard_rejects_witnesses", "witnesses_trip_own_guard",
@@ -839,6 +865,13 @@ class C17(Property):
     assumptions = [
         "keys are str, values None/int/str (no key/value whose == or hash is user-defined; the Deleted symbol is never stored by the caller)",
         "`Cls.properties = x` (rebinding the class attribute by hand) is not an operation of the property",
+        "a Properties object handed to several classes (using_shared) is modelled as one descriptor per class with the "
+        "same initial mapping; this differs from the code only where a multiple-inheritance class mixes such classes "
+        "(the MRO walk compares descriptor identity): histories containing both using_shared and mi are checked by the "
+        "oracle (whose reference keeps the identity) and not by the Lean model",
+        "a mapping assigned to an instance (T(properties=d), el.properties = d) is stored BY REFERENCE: two instances "
+        "given the same dict object alias each other (documented behaviour of a wholesale assignment); model and harness "
+        "always pass a fresh dict, so this aliasing is neither generated nor modelled",
         "a view object held by the caller is dropped when its instance is wholesale-assigned (it belongs to the replaced mapping)",
     ]
     rule = ("histories of <= 40 commands over a hierarchy of depth 3-5 built with named/using/validated_by/class "
@@ -878,16 +911,26 @@ class C17(Property):
             {"t": "op", "view": ["i", 0], "op": "delitem", "k": "a"},
             {"t": "op", "view": ["i", 0], "op": "clear"},
             {"t": "op", "view": ["c", 0], "op": "setitem", "k": "a", "v": 2}]})
-        # KF-C17-b witness: one Properties object given to two classes
+        # fixed 936c1b4 (former KF-C17-b): one Properties object given to two classes shares nothing; the second
+        # class starts from the object's initial mapping, not from what the first class wrote or deleted since
         out.append({"rtype": "String", "root": "using", "init": [["s", 1]], "cmds": [
-            {"t": "using_shared", "p": 0, "owner": 0},
-            {"t": "op", "view": ["c", 1], "op": "setitem", "k": "t", "v": 2}]})
+            {"t": "op", "view": ["c", 0], "op": "setitem", "k": "w", "v": 9},
+            {"t": "op", "view": ["c", 0], "op": "delitem", "k": "s"},
+            {"t": "using_shared", "p": 0, "owner": 0, "init": [["s", 1]]},
+            {"t": "op", "view": ["c", 1], "op": "setitem", "k": "t", "v": 2},
+            {"t": "using_shared", "p": 1, "owner": 1, "init": [["s", 1]]}]})
         # KF-C17-c witness: class X(A, B) where B's line restarts with using(properties=…) and A's does not
         out.append({"rtype": "String", "root": "using", "init": [], "cmds": [
             {"t": "subclass", "p": 0, "via": "named"},
             {"t": "using_props", "p": 0, "init": [], "wrap": False},
             {"t": "op", "view": ["c", 1], "op": "setitem", "k": "b", "v": 1},
             {"t": "mi", "bases": [1, 2], "mro": [1, 2, 0]}]})
+        # fix 6f9ffeb: with_properties takes the documented iterable of pairs / a mapping / no positional argument
+        out.append({"rtype": "String", "root": "using", "init": [["k", 1]], "cmds": [
+            {"t": "with_props", "p": 0, "pairs": [["a", 1], ["b", 2]], "split": 2, "form": "list"},
+            {"t": "with_props", "p": 1, "pairs": [["a", 3], ["c", 4]], "split": 1, "form": "mapping"},
+            {"t": "with_props", "p": 2, "pairs": [["d", 5]], "split": 0, "form": "none"},
+            {"t": "with_props", "p": 0, "pairs": [["e", 6], ["e", 7], ["f", 8]], "split": 3, "form": "iter"}]})
         # seeded mutation C17 view-frame-chain-cache: a held view object of the lowest class (and of an instance)
         # is read, then an intermediate class that was never written gets its first write / deletion
         out.append({"rtype": "String", "root": "using", "init": [["k", 1]], "cmds": [
@@ -918,8 +961,10 @@ class C17(Property):
     def generate(self, rng, n, tier):
         for i in range(n):
             r = rng.random()
-            if r < 0.08:
-                yield gen_case(rng, tier, shared=0.5)          # KF-C17-b territory
+            if r < 0.04:
+                yield gen_case(rng, tier, shared=0.5)          # one Properties object given to several classes
+            elif r < 0.08:
+                yield gen_case(rng, tier, shared=0.5, mi=0.6)  # … also below multiple-inheritance classes
             elif r < 0.2:
                 yield gen_case(rng, tier, mi=0.6)
             elif r < 0.3:
@@ -934,6 +979,9 @@ class C17(Property):
         steps = []
         for cmd in case["cmds"]:
             res = real.do(cmd)
+            if cmd["t"] != "op" and res[0] == "err":
+                steps.append({"r": _canon_result(res), "d": []})
+                break                    # the store the later commands refer to was not built
             new = real.snapshot()
             old = {tuple(v): items for v, items in snap}
             delta = [[v, items] for v, items in new if tuple(v) not in old or old[tuple(v)] != items]
@@ -947,6 +995,14 @@ class C17(Property):
     def classify(self, case, failure):
         return classify_failure(case, failure)
 
+    def has_model(self, case):
+        # The model gives every class that is handed a Properties object a descriptor of its own (equivalent
+        # since 936c1b4, where the object's mapping is copied per class) — except that the MRO walk of a
+        # multiple-inheritance class still compares descriptor IDENTITY; histories that contain both are
+        # checked by the oracle (whose reference keeps the identity) only.
+        ts = {c["t"] for c in case["cmds"]}
+        return not ("using_shared" in ts and "mi" in ts)
+
     def nontrivial(self, case, obs):
         ops = [c for c in case["cmds"] if c["t"] == "op" and c["op"] in WRITE_OPS]
         if len(ops) < 3 or len({c["op"] for c in ops}) < 2 or len({tuple(c["view"]) for c in ops}) < 2:
@@ -956,6 +1012,8 @@ class C17(Property):
     def tags(self, case, obs):
         cmds = case["cmds"]
         t = ["cmds=%d" % (len(cmds) // 10 * 10), "root=%s" % case["root"]]
+        g = hist_guard(case)
+        t.append("histGuard=%s" % ("holds" if g is None else "fails:" + g))
         ncls = 1 + sum(1 for c in cmds if c["t"] in CLASS_CMDS)
         ninst = sum(1 for c in cmds if c["t"] in INST_CMDS)
         t += ["classes=%d" % ncls, "instances=%d" % ninst]
@@ -976,6 +1034,11 @@ class C17(Property):
         return sorted(set(t))
 
     def shrink_candidates(self, case):
+        for c in self._shrink_candidates(case):
+            if _shared_inits_consistent(c):
+                yield c
+
+    def _shrink_candidates(self, case):
         cmds = case["cmds"]
         # drop one op / leaf structural command (only commands nothing later refers to)
         for i in range(len(cmds) - 1, -1, -1):
@@ -1003,6 +1066,47 @@ class C17(Property):
                         yield c
         if case["rtype"] != "String":
             yield dict(copy.deepcopy(case), rtype="String")
+
+
+def _shared_inits_consistent(case):
+    """a using_shared command names the initial mapping of the Properties object held by its owner: a shrunk
+    case must not break that"""
+    inits = [[list(p) for p in case["init"]]]
+    for cmd in case["cmds"]:
+        t = cmd["t"]
+        if t == "using_props":
+            inits.append([list(p) for p in cmd["init"]])
+        elif t == "new_with_compound":
+            inits.append([list(p) for p in cmd["m"]])
+        elif t == "using_shared":
+            if cmd["owner"] >= len(inits) or inits[cmd["owner"]] is None or \
+                    [list(p) for p in cmd["init"]] != inits[cmd["owner"]]:
+                return False
+            inits.append([list(p) for p in cmd["init"]])
+        elif t in CLASS_CMDS:
+            inits.append(None)
+    return True
+
+
+def hist_guard(case):
+    """`histGuard` of Proofs/C17.lean, recomputed on the reference that follows the code (defects on): None if
+    every command passes `cmdGuard`, else which component fails first — "badClear" (an instance clear() while the
+    instance holds a key its class does not show, KF-C17-a) or "mi" (a class statement whose chain mixes
+    Properties objects, KF-C17-c)"""
+    r = Ref(case, KNOWN_DEFECTS)
+    for cmd in case["cmds"]:
+        if cmd["t"] == "op" and cmd["op"] == "clear" and cmd["view"][0] == "i":
+            inst = r.insts[cmd["view"][1]]
+            if "detached" not in inst:
+                shown = r.class_visible(inst["cls"])
+                if any(k not in shown for k in inst["layer"]):
+                    return "badClear"
+        r.do(cmd)
+        if cmd["t"] == "mi":
+            c = len(r.classes) - 1
+            if any(r.resolve(x) != r.resolve(c) for x in r.cut(c)):
+                return "mi"
+    return None
 
 
 def _owner_class(ref, view):
